@@ -116,8 +116,10 @@ TEXT = {
            "is skipped per record without aborting the stream, the three "
            "field tables agree, exactly-one-of validators, a yielded span is "
            "the one built from the current record, the input stream is never "
-           "rewound between two yields, file iteration skeleton. Agreement "
-           "of the "
+           "rewound between two yields, file iteration skeleton; and one "
+           "structural clause of the translation: every alternative of a "
+           "field spec binds a jq variable of its own from its own paths. "
+           "Agreement of the "
            "generated jq program with the documented flattening is NOT "
            "decided (needs execution).",
     "C14": "Decides the plumbing: one learner fed by either arm with the "
